@@ -61,6 +61,8 @@ def _scenario(bits, acl_pos, d_up, bw, perm):
         # the dns-client is declared with its own server, different from the host's node-level dns_server
         assert c1["services"][0]["type"] == "dns-client" and c1.get("dns_server")
         c1["services"][0] = dict(c1["services"][0], options=dict(c1["services"][0].get("options", {}), dns_server="192.168.2.77"))
+    if bits.get("nmne"):
+        net["nmne_config"] = {"capture_nmne": True, "nmne_capture_keywords": ["DELETE"]}
     if bits["defaults"]:
         cfg["simulation"]["defaults"] = {"node_start_up_duration": 2, "node_shut_down_duration": 4, "node_scan_duration": 6, "service_fix_duration": 7, "folder_scan_duration": 2, "folder_restore_duration": 3}
     if bits["off"]:
@@ -221,17 +223,17 @@ def _check_inventory(game, inv):
         check(len(a.action_manager.action_map) == nact or nact == 0, f"agent {ref}: action map size differs")
 
 
-BITS = ["users", "files", "route", "droute", "acl", "listen", "fix", "defaults", "off", "durations", "redeclare", "dnsopt"]
+BITS = ["users", "files", "route", "droute", "acl", "listen", "fix", "defaults", "off", "durations", "redeclare", "dnsopt", "nmne"]
 
 
 def config_inventory(
     b_users: bool, b_files: bool, b_route: bool, b_droute: bool, b_acl: bool, b_listen: bool, b_fix: bool, b_defaults: bool,
-    b_off: bool, b_durations: bool, b_redeclare: bool, acl_pos: int, d_up: int, bw_i: int, perm: bool, b_dnsopt: bool,
+    b_off: bool, b_durations: bool, b_redeclare: bool, acl_pos: int, d_up: int, bw_i: int, perm: bool, b_dnsopt: bool, b_nmne: bool, b_prev: bool,
 ):
     from primaite.game.game import PrimaiteGame
 
     assume(all_of(rng(acl_pos, 0, 2), rng(d_up, 0, 2), rng(bw_i, 0, 1)))
-    bits = dict(zip(BITS, [b_users, b_files, b_route, b_droute, b_acl, b_listen, b_fix, b_defaults, b_off, b_durations, b_redeclare, b_dnsopt]))
+    bits = dict(zip(BITS, [b_users, b_files, b_route, b_droute, b_acl, b_listen, b_fix, b_defaults, b_off, b_durations, b_redeclare, b_dnsopt, b_nmne]))
     bits = {k: bool(v) for k, v in bits.items()}
     pos = pick([0, 11, 23], acl_pos) if bits["acl"] else 0
     dup = pick_int(d_up, 0, 2) if bits["durations"] else 0
@@ -244,11 +246,26 @@ def config_inventory(
         quiet()
         cfg = _scenario(bits, pos, dup, bw, bool(perm))
         inv = _inventory_from_dict(cfg)
+        if b_prev:
+            # load history: ANOTHER scenario, with the opposite NMNE declaration, was built in this process before
+            prev = mini_scenario("switched", with_green=False, with_red=False)
+            if not bits["nmne"]:
+                prev["simulation"]["network"]["nmne_config"] = {"capture_nmne": True, "nmne_capture_keywords": ["ENCRYPT"]}
+            PrimaiteGame.from_config(prev)
         try:
             game = PrimaiteGame.from_config(copy.deepcopy(cfg))
         except Exception as e:
             fail(f"from_config raised {type(e).__name__}: {str(e)[:200]} for a well-formed scenario with {sorted(k for k, v in bits.items() if v)}")
         _check_inventory(game, inv)
+        # NMNE capture settings in effect are the ones THIS scenario declares (defaults when it declares none)
+        from primaite.game.agent.observations.nic_observations import NICObservation
+        from primaite.simulator.network.hardware.base import NetworkInterface
+
+        want_kw = ["DELETE"] if bits["nmne"] else []
+        eff = NetworkInterface.nmne_config
+        check(bool(eff.capture_nmne) == bits["nmne"], lambda: f"NMNE capture in effect is {eff.capture_nmne}, the scenario declares {bits['nmne']}" + (" (another scenario was loaded before)" if b_prev else ""))
+        check(list(eff.nmne_capture_keywords) == want_kw, lambda: f"NMNE keywords in effect are {list(eff.nmne_capture_keywords)}, the scenario declares {want_kw}" + (" (another scenario was loaded before)" if b_prev else ""))
+        check(bool(NICObservation.capture_nmne) == bits["nmne"], "the observation layer's NMNE capture flag differs from the scenario's declaration")
         if perm:
             # key-order permutation builds the same simulation
             cfg0 = _scenario(bits, pos, dup, bw, False)
@@ -363,10 +380,10 @@ def _check_inventory_shipped(game, inv, f):
 HARNESSES = {
     "config_inventory": {
         "fn": config_inventory,
-        "quick": [{"fixed": {"b_users": u, "b_files": u, "b_dnsopt": u, "b_off": o, "b_route": o, "perm": p, "bw_i": 1 if p else 0}, "timeout": 280} for u in (False, True) for o in (False, True) for p in (False, True)],
-        "thorough": [{"fixed": {"b_users": u, "b_files": f, "b_dnsopt": f, "b_off": o, "perm": p}, "timeout": 1500} for u in (False, True) for f in (False, True) for o in (False, True) for p in (False, True)],
+        "quick": [{"fixed": {"b_users": u, "b_files": u, "b_dnsopt": u, "b_off": o, "b_route": o, "b_nmne": o, "b_prev": True, "perm": p, "bw_i": 1 if p else 0}, "timeout": 280} for u in (False, True) for o in (False, True) for p in (False, True)],
+        "thorough": [{"fixed": {"b_users": u, "b_files": f, "b_dnsopt": f, "b_off": o, "b_nmne": o, "b_prev": p, "perm": p}, "timeout": 1500} for u in (False, True) for f in (False, True) for o in (False, True) for p in (False, True)],
         "cover": ["built", "perm"],
-        "bounds": {"quick": "12 presence bits (5 coupled per job), 3 ACL positions (0, 11, 23), 3 durations, 2 bandwidths (one fractional), key-order permutation", "thorough": "all 2^11 presence combinations of the first 11 bits, the dns-client option bit coupled to the files bit"},
+        "bounds": {"quick": "13 presence bits (6 coupled per job; another scenario with the opposite NMNE declaration loaded before), 3 ACL positions (0, 11, 23), 3 durations, 2 bandwidths (one fractional), key-order permutation", "thorough": "all 2^11 presence combinations of the first 11 bits, the dns-client option bit coupled to the files bit"},
     },
     "firewall_inventory": {
         "fn": firewall_inventory,
